@@ -9,7 +9,7 @@ import tempfile
 from common import (Check, coq_eval, parse_defs, parse_nlist, cstr, clist, cbool, copt, c_build, c_driver, CBUILD,
                     ROOT, run)
 
-NSS = ['Na', 'Nb', 'Nab', 'Nc', 'Nd']
+NSS = ['Nab', 'Na', 'Nb', 'Nc', 'Nd']      # dependencies go to earlier names: Na may depend on Nab, whose name begins with its own
 GOODV = ['1.0', '1.9', '1.10', '2.0', '0.1', '3.4', '1.2', '10.0']
 ODDV = ['1', '01.2', '1.09', ' 2.0', '1.x', 'x', '1.2.3', '1.', '+1.5', '-1.0', '2.00']
 LIBDIR = '/usr/lib/girepository-1.0'
@@ -148,7 +148,11 @@ def run_impl(exe, w, env_dirs, ops):
             script.append('L %s' % w.blobs[o[1]])
     script.append('Q')
     env = dict(os.environ)
-    env['GI_TYPELIB_PATH'] = ':'.join(env_dirs)
+    # empty components (a variable extended from an unset one, a doubled separator) are skipped, what follows them is searched
+    raw = list(env_dirs)
+    for k_ in range(len(ops) % 3):
+        raw.insert((len(ops) * 7 + k_ * 3) % (len(raw) + 1), '')
+    env['GI_TYPELIB_PATH'] = ':'.join(raw)
     env['G_DEBUG'] = ''
     p = subprocess.run([exe], input='\n'.join(script) + '\n', capture_output=True, text=True, env=env, timeout=60)
     lines = p.stdout.splitlines()
@@ -313,6 +317,12 @@ def main(tier, seed):
                         ent.append((name, inf))
                     fsview[d] = ent
             blobinfo = {k: info_of(exe, p) for k, p in w.blobs.items()}
+            # the header of each compiled typelib records what its GIR includes
+            for k_, inf_ in blobinfo.items():
+                if inf_ is None or inf_[0] != k_[0] or inf_[1] != k_[1] or sorted(inf_[2]) != sorted(w.variants[k_]):
+                    ck.failing_input('a typelib does not record the namespace, version and dependencies of the GIR it was compiled from',
+                                     dict(namespace=k_[0], version=k_[1], includes=['%s-%s' % d_ for d_ in w.variants[k_]]),
+                                     detail=dict(typelib_header=inf_))
             for hi in range(6 if tier == 'quick' else 10):
                 env_dirs = [d for d in w.dirs if rng.random() < 0.5]
                 ops = gen_ops(rng, w, odd)
